@@ -1235,6 +1235,7 @@ func c15R4(c *Ctx) {
 	}
 	name := FuncName(fn)
 	c.Analysed(name)
+	var curPath *Path
 	fieldOfParam := func(v ssa.Value, field string) int {
 		// v is a load of <param>.<field>: which parameter?
 		u, ok := strip(v).(*ssa.UnOp)
@@ -1247,6 +1248,9 @@ func c15R4(c *Ctx) {
 		}
 		if f := fieldOf(fa.X.Type(), fa.Field); f == nil || f.Name() != field {
 			return -1
+		}
+		if curPath != nil {
+			return paramIndex(fn, curPath.Resolve(fa.X, len(curPath.Blocks)-1))
 		}
 		return paramIndex(fn, fa.X)
 	}
@@ -1280,6 +1284,7 @@ func c15R4(c *Ctx) {
 			return
 		}
 		last := len(p.Blocks) - 1
+		curPath = p
 		if v, isC := pathBool(p, r.Results[0], last); isC && !v {
 			return
 		}
@@ -1289,7 +1294,10 @@ func c15R4(c *Ctx) {
 			facts[k] = v
 		}
 		// returning the value of a comparison: on a path that yields true, that comparison holds
-		if rv := p.Resolve(r.Results[0], last); rv != nil {
+		p.throughCalls = true
+		rv := p.Resolve(r.Results[0], last)
+		p.throughCalls = false
+		if rv != nil {
 			if _, isConst := rv.(*ssa.Const); !isConst {
 				k, pol := normCond(rv)
 				facts[k] = pol
@@ -1298,7 +1306,7 @@ func c15R4(c *Ctx) {
 		same, port, zone, ip := false, false, false, false
 		for key, val := range facts {
 			if key.op == token.EQL && key.y != nil && val {
-				if paramIndex(fn, key.x) >= 0 && paramIndex(fn, key.y) >= 0 && paramIndex(fn, key.x) != paramIndex(fn, key.y) {
+				if kx, ky := paramIndex(fn, p.Resolve(key.x, last)), paramIndex(fn, p.Resolve(key.y, last)); kx >= 0 && ky >= 0 && kx != ky {
 					same = true
 				}
 				for _, fld := range []string{"Port", "Zone"} {
